@@ -1,48 +1,37 @@
-// Package vchan: channel operation shims. PROTOTYPE: logical rendezvous table for unbuffered
-// channels between controlled threads; real ops otherwise.
+// Package vchan: channel operations of the rewritten murex sources. Between controlled threads an
+// unbuffered channel is a logical rendezvous (a sender is enabled when a receiver is parked on the
+// channel, the value travels through a per-channel mailbox); buffered channels use the real channel
+// with enabledness read from len/cap. Every operation first tries the real non-blocking operation so
+// that channels shared with uncontrolled goroutines (context.Done, runtime timers) keep working.
 package vchan
 
 import (
 	"reflect"
 
-	"github.com/lmorg/murex/zz_verif/vsched"
+	"verif/shim/vsched"
 )
 
-type chanState struct {
-	senders   int // controlled threads parked wanting to send
+type box struct {
+	key       uintptr
+	vals      []any
 	receivers int
+	closed    bool
 }
 
-var table = map[uintptr]*chanState{}
+// per-execution table (no Go map: see vsched package comment)
+var boxes []*box
 
-func state(c any) *chanState {
+func init() { vsched.OnReset(func() { boxes = boxes[:0] }) }
+
+func boxOf(c any) *box {
 	p := reflect.ValueOf(c).Pointer()
-	s := table[p]
-	if s == nil {
-		s = &chanState{}
-		table[p] = s
+	for _, b := range boxes {
+		if b.key == p {
+			return b
+		}
 	}
-	return s
-}
-
-// Prototype strategy: a Send on an unbuffered channel is enabled when a controlled receiver is
-// parked on it; the sender then hands the value over by performing the real send from a helper
-// goroutine-free path: receiver is granted first (it blocks in the real recv while holding no
-// token), so we instead use a buffered mailbox per channel pointer.
-
-type mailbox struct {
-	vals []any
-}
-
-var boxes = map[uintptr]*mailbox{}
-
-func box(c any) *mailbox {
-	p := reflect.ValueOf(c).Pointer()
-	b := boxes[p]
-	if b == nil {
-		b = &mailbox{}
-		boxes[p] = b
-	}
+	b := &box{key: p}
+	boxes = append(boxes, b)
 	return b
 }
 
@@ -57,12 +46,30 @@ func Send[T any](c chan<- T, v T) {
 		c <- v
 		return
 	}
-	s, b := state(c), box(c)
-	s.senders++
-	// rendezvous: enabled when a receiver is waiting
-	vsched.PointOp(e, t, vsched.Op{Kind: vsched.OpSend, Obj: c, Enabled: func() bool { return s.receivers > 0 }})
-	s.senders--
-	s.receivers-- // claim one receiver
+	b := boxOf(c)
+	sentReal := false
+	vsched.PointOp(e, t, vsched.Op{Kind: vsched.OpSend, Obj: c, Enabled: func() bool {
+		if sentReal || b.receivers > 0 {
+			return true
+		}
+		if b.closed {
+			return true // will panic like the real thing
+		}
+		select {
+		case c <- v: // an uncontrolled goroutine is receiving
+			sentReal = true
+			return true
+		default:
+			return false
+		}
+	}})
+	if sentReal {
+		return
+	}
+	if b.closed {
+		panic("send on closed channel")
+	}
+	b.receivers--
 	b.vals = append(b.vals, v)
 }
 
@@ -73,19 +80,48 @@ func recv[T any](c <-chan T) (T, bool) {
 		return v, ok
 	}
 	if cap(c) > 0 {
-		vsched.PointOp(e, t, vsched.Op{Kind: vsched.OpRecv, Obj: c, Enabled: func() bool { return len(c) > 0 }})
+		b := boxOf(c)
+		vsched.PointOp(e, t, vsched.Op{Kind: vsched.OpRecv, Obj: c, Enabled: func() bool { return len(c) > 0 || b.closed }})
 		v, ok := <-c
 		return v, ok
 	}
-	s, b := state(c), box(c)
-	s.receivers++
-	// announce, then wait until a value has been deposited for us
-	vsched.PointOp(e, t, vsched.Op{Kind: vsched.OpRecv, Obj: c, Enabled: func() bool { return len(b.vals) > 0 }})
-	v := b.vals[0].(T)
-	b.vals = b.vals[1:]
-	return v, true
+	b := boxOf(c)
+	b.receivers++
+	var realV T
+	realOK, gotReal := false, false
+	vsched.PointOp(e, t, vsched.Op{Kind: vsched.OpRecv, Obj: c, Enabled: func() bool {
+		if gotReal || len(b.vals) > 0 || b.closed {
+			return true
+		}
+		select {
+		case v, ok := <-c: // closed for real (context.Done) or an uncontrolled sender
+			realV, realOK, gotReal = v, ok, true
+			return true
+		default:
+			return false
+		}
+	}})
+	if len(b.vals) > 0 {
+		v := b.vals[0].(T)
+		b.vals = b.vals[1:]
+		return v, true
+	}
+	b.receivers--
+	if gotReal {
+		return realV, realOK
+	}
+	var zero T
+	return zero, false
 }
 
 func Recv[T any](c <-chan T) T { v, _ := recv(c); return v }
 
 func Recv2[T any](c <-chan T) (T, bool) { return recv(c) }
+
+// Close closes the real channel and records it for the logical rendezvous.
+func Close[T any](c chan<- T) {
+	if e, _ := vsched.Self(); e != nil {
+		boxOf(c).closed = true
+	}
+	close(c)
+}
